@@ -72,7 +72,7 @@ func sxOpt(s string, some bool) string {
 }
 
 var errCodes = map[string]int{"EOF": 1, "UnexpectedEOF": 2, "MagicMismatch": 3, "HeaderChecksum": 4, "ValueChecksum": 5,
-	"Decompress": 6, "NotFound": 7, "Rejected": 8, "Overflow": 9, "OutOfFuel": 10, "Other": 11}
+	"Decompress": 6, "NotFound": 7, "Rejected": 8, "Overflow": 9, "OutOfFuel": 10, "Other": 11, "WrappedEOF": 12}
 
 func sxErr(name string) string { return sxI(errCodes[name]) }
 func sxOk(s string) string     { return "(n0 " + s + ")" }
@@ -185,7 +185,8 @@ func runProp(p *Prop, tier string, seed int64, outDir string, corpusDir string) 
 			}
 			cc := c
 			if p.Shrink != nil && fin == "" {
-				cc = shrinkCase(p, c)
+				cc = shrinkCase(p, c, msg)
+				_, msg = cc.Oracle()
 			}
 			writeReplay(f, p.ID, "failing-input", cc, msg, "")
 			sum.OracleFails = append(sum.OracleFails, oracleFail{CaseID: i, Msg: msg, Finding: fin, File: f})
@@ -238,13 +239,24 @@ func loadCase(p *Prop, path string) (Case, error) {
 	return c, nil
 }
 
-func shrinkCase(p *Prop, c Case) Case {
+func msgClass(m string) string {
+	for i, ch := range m {
+		if ch == ':' || ch == '(' || (ch >= '0' && ch <= '9') {
+			return m[:i]
+		}
+	}
+	return m
+}
+
+// shrinkCase greedily removes parts of a failing case while the same kind of failure persists
+func shrinkCase(p *Prop, c Case, msg string) Case {
 	cur := c
+	class := msgClass(msg)
 	for round := 0; round < 200; round++ {
 		progressed := false
 		for _, cand := range p.Shrink(cur) {
 			cand.Exec()
-			if ok, _ := cand.Oracle(); !ok {
+			if ok, m := cand.Oracle(); !ok && msgClass(m) == class {
 				cur = cand
 				progressed = true
 				break
